@@ -377,6 +377,14 @@ fn build_flow_net(case: &Value, layers: &[Value]) -> Network {
     net
 }
 
+/// C08, "consecutive layers always fit": a forward or backward pass of an ACCEPTED network that aborts on a shape
+/// disagreement (an assertion over shapes, a dot product of unequal lengths) is a transition that does not fit.
+fn shapes_did_not_fit(rep: &mut Report, panic: &str, id: &str, case: &Value) {
+    if ["Single(", "Double(", "Triple(", "hape", "Invalid dot", "Invalid add", "Invalid sub", "Invalid mul"].iter().any(|m| panic.contains(m)) {
+        rep.mismatch("C08", "accepted_network_aborts_on_a_shape_disagreement", id, json!({"panic": panic}), case);
+    }
+}
+
 pub fn replay_flow(case: &Value, rep: &mut Report) {
     let mode = str_of(case, "mode");
     let prop = match mode {
@@ -472,7 +480,10 @@ pub fn replay_flow(case: &Value, rep: &mut Report) {
                 let other = if case["cfg"]["acc"] == "mean" { "add" } else { "mean" };
                 net.set_accumulation(nets::accumulation(other), nets::accumulation(other));
                 match guarded(|| net.predict(&x)) {
-                    Err(e) => rep.mismatch(prop, "predict_panicked", &id, json!({"panic": e, "cfg": case["cfg"]}), case),
+                    Err(e) => {
+                        shapes_did_not_fit(rep, &e, &id, case);
+                        rep.mismatch(prop, "predict_panicked", &id, json!({"panic": e, "cfg": case["cfg"]}), case)
+                    }
                     Ok(y) => {
                         if let Some(d) = diff_spec_value(&y, &eval["y"]) {
                             rep.mismatch(prop, "block_output", &id, json!({"diff": d, "cfg": case["cfg"]}), case);
@@ -557,7 +568,10 @@ pub fn replay_flow(case: &Value, rep: &mut Report) {
                     rep.count("evaluations_with_the_other_accumulation_rotated", 1);
                     rep.checks += 1;
                     match guarded(|| net.predict(&x)) {
-                        Err(e) => rep.mismatch(prop, "predict_panicked", &id, json!({"panic": e, "accumulation": acc}), case),
+                        Err(e) => {
+                            shapes_did_not_fit(rep, &e, &id, case);
+                            rep.mismatch(prop, "predict_panicked", &id, json!({"panic": e, "accumulation": acc}), case)
+                        }
                         Ok(y) => {
                             if let Some(d) = diff_spec_value(&y, &pv["y"]) {
                                 rep.mismatch(prop, "prediction", &id, json!({"diff": d, "accumulation": acc}), case);
@@ -574,7 +588,10 @@ pub fn replay_flow(case: &Value, rep: &mut Report) {
                         net.verif_backward(g, &pre, &post, &max, fbs)
                     });
                     match res {
-                        Err(e) => rep.mismatch(prop, "backward_panicked", &id, json!({"panic": e}), case),
+                        Err(e) => {
+                            shapes_did_not_fit(rep, &e, &id, case);
+                            rep.mismatch(prop, "backward_panicked", &id, json!({"panic": e}), case)
+                        }
                         Ok((wg, bg)) => {
                             let n = layers.len();
                             for (i, want) in eval["grads"].as_array().unwrap().iter().enumerate() {
